@@ -17,6 +17,7 @@
 //     -> "ok=.. failures=.. errors=.. cancelled=<cancel was requested> ncb=<callbacks in this build>
 //         late=<callbacks delivered while no build was running, since the previous build returned> events=..."
 //        additional events: T:<cmd>:<kind> commandStatusChanged, X cancel requested from the callback
+//   fcancel -> "cancelled"   cancel() requested on the open frontend while NO build is running
 //   close -> "late=<n>"
 #include "common.h"
 #include "llbuild/Basic/ExecutionQueue.h"
@@ -325,6 +326,19 @@ std::string doProbe(const SV& t) {
         for (auto& e : del.events) if (e[0] == 'S') started = true;
         out += " " + kv.first + ":" + (pk < 0 ? std::string("none") : std::to_string(pk)) + ":" + (started ? "1" : "0") + ":" + std::to_string(resultKind);
       }
+      // a successful prior value AND a FailedInput (then a good input): the skip decision comes first
+      for (int variant = 0; variant < 2; variant++) {
+        { std::lock_guard<std::mutex> l(del.mu); del.events.clear(); del.failures = 0; }
+        c->start(system, ti);
+        c->providePriorValue(system, ti, cmdValue(10, c->getOutputs().size(), 0, false));
+        c->provideValue(system, ti, 0, BuildKey::makeNode("in0").toData(), inputValue(9));
+        if (variant) c->provideValue(system, ti, 1, BuildKey::makeNode("in1").toData(), inputValue(2));
+        int resultKind = -1;
+        c->execute(system, ti, nullptr, [&](BuildValue&& r) { resultKind = (int)r.getKind(); });
+        bool started = false;
+        for (auto& e : del.events) if (e[0] == 'S') started = true;
+        out += " " + kv.first + ":" + (variant ? "10+9.2" : "10+9") + ":" + (started ? "1" : "0") + ":" + std::to_string(resultKind);
+      }
     }
   }
   return out;
@@ -407,6 +421,7 @@ std::string handle(const SV& t) {
   if (t[0] == "open" && t.size() == 5) return doOpen(t);
   if (t[0] == "fbuild" && t.size() == 5) return doFBuild(t);
   if (t[0] == "close") return doClose(t);
+  if (t[0] == "fcancel") { if (!g_session) return "ERR no session"; g_session->del->cancel(); return "cancelled"; }
   if (t[0] == "build" && t.size() == 8) return doBuild(t);
   if (t[0] == "probe" && t.size() == 3) return doProbe(t);
   return "ERR unknown";
